@@ -324,6 +324,11 @@ pub fn process<I: BufRead, O: Write>(
             }
         }
 
+        // The last line of an included file may lack its newline: it must not be glued to the
+        // line that follows the #include
+        if !buf.ends_with('\n') && !context.includes_stack.is_empty() {
+            buf.push('\n');
+        }
         let has_lf = buf.ends_with('\n');
         let mut remaining: &str = &buf;
         let mut insert_it = !in_multiline_comments;
